@@ -18,7 +18,7 @@ func faultKindsFor(op string) []string {
 
 // errFlavours: "a returned error" comes in several values (cancelled / timed-out context, a driver's no-rows error, a
 // broken connection). Single faults are enumerated with every flavour, the second fault of a pair with the plain one.
-var errFlavours = []string{"err_canceled", "err_deadline", "err_notfound", "err_eof"}
+var errFlavours = []string{"err_canceled", "err_deadline", "err_notfound", "err_eof", "err_text"}
 
 func firstFaultKindsFor(op string) []string {
 	return append(faultKindsFor(op), errFlavours...)
